@@ -1,7 +1,9 @@
 package main
 
 import (
+	"bytes"
 	"encoding/hex"
+	"strings"
 	"fmt"
 
 	"github.com/kstenerud/go-concise-encoding/ce"
@@ -91,15 +93,22 @@ func c14Verdict(rc RulesCfg, es []Ev) bool {
 	return rej < 0
 }
 
+// c14DocSize: format is cbe | cte, optionally suffixed "-reader" for the streaming entry point.
 func c14DocSize(format string, doc []byte, limit uint64) bool {
 	cfg := defaultRulesCfg().config()
 	cfg.Rules.MaxDocumentSizeBytes = limit
 	rules := ce.NewRules(&Recorder{}, cfg)
-	var err error
-	if format == "cte" {
-		err = ce.NewCTEDecoder(cfg).DecodeDocument(doc, rules)
+	var d ce.Decoder
+	if strings.HasPrefix(format, "cte") {
+		d = ce.NewCTEDecoder(cfg)
 	} else {
-		err = ce.NewCBEDecoder(cfg).DecodeDocument(doc, rules)
+		d = ce.NewCBEDecoder(cfg)
+	}
+	var err error
+	if strings.HasSuffix(format, "-reader") {
+		err = d.Decode(bytes.NewReader(doc), rules)
+	} else {
+		err = d.DecodeDocument(doc, rules)
 	}
 	return err == nil
 }
@@ -148,8 +157,12 @@ func runC14(c *Ctx) {
 		}
 		// total document size, CBE and CTE
 		if i%3 == 0 {
-			for _, format := range []string{"cbe", "cte"} {
-				doc, ok := encodeEvents(format, es)
+			for _, format := range []string{"cbe", "cte", "cbe-reader", "cte-reader", "cte-reader-ws"} {
+				doc, ok := encodeEvents(format[:3], es)
+				if strings.HasSuffix(format, "-ws") {
+					doc = append(doc, '\n') // trailing white space: the document minus its last byte is still a complete document
+					format = "cte-reader"
+				}
 				if !ok || !c14DocSize(format, doc, 5<<30) {
 					continue
 				}
